@@ -31,8 +31,10 @@ def strat_linear(tier):
     num = st.one_of(st.sampled_from(_all_nums()), st.builds(lambda k: dict(name="extrapolk", k=k), gen.f(-1, 1)))
     coef = st.one_of(gen.sfloat(-2, 2), st.just(0.0), st.just(1.0))
     mesh = st.one_of(gen.mesh_faces(3, nmax), gen.mesh_morph(3, nmax), gen.mesh_refined(3, nmax), gen.mesh_uniform(3, nmax))
-    return st.builds(lambda m, nm, model, a, b, per: dict(mesh=m, num=nm, model=model, a=a, b=b, periodic=per),
-                     mesh, num, st.sampled_from(["convection", "euler1d"]), st.lists(coef, min_size=3, max_size=3), st.lists(coef, min_size=3, max_size=3), st.booleans())
+    # length unit: the same mesh from nanometres to tens of kilometres (absolute tolerances on coordinates have no place in a reconstruction)
+    unit = st.one_of(st.just(1.0), st.just(1.0), st.builds(lambda e: float(10.0 ** e), st.integers(-10, 4)))
+    return st.builds(lambda m, nm, model, a, b, per, u: dict(mesh=cases.scale_mesh(m, u), num=nm, model=model, a=a, b=b, periodic=per, unit=u),
+                     mesh, num, st.sampled_from(["convection", "euler1d"]), st.lists(coef, min_size=3, max_size=3), st.lists(coef, min_size=3, max_size=3), st.booleans(), unit)
 
 
 def check_linear(case):
@@ -108,7 +110,7 @@ def check_linear(case):
     target(worst, "linear-reconstruction-error")
     nt = any(b != 0 for _, b in ab) and n >= 4
     return dict(nontrivial=nt, labels=["num:" + name + (":" + case["num"].get("limiter", "") if name == "muscl" else ""), "mesh:" + case["mesh"]["kind"], "model:" + case["model"],
-                                       "periodic" if case["periodic"] else "open"])
+                                       "periodic" if case["periodic"] else "open", "unit:" + ("1" if case.get("unit", 1.0) == 1.0 else "<1e-6" if case["unit"] < 1e-6 else "other")])
 
 
 # ---------------------------------------------------------------- (b) kappa stencil of the convection operator
@@ -142,9 +144,10 @@ def enum_impulses(tier):
 def strat_stencil(tier):
     nmax = 24 if tier == "quick" else 60
     num = st.one_of(st.sampled_from([x[0] for x in _stencil_nums()]), st.builds(lambda k: dict(name="extrapolk", k=k), gen.f(-1, 1)))
-    return st.builds(lambda n, a, nm, L, x0, d: dict(n=n, a=a, num=nm, length=L, x0=x0, data=d),
+    unit = st.one_of(st.just(1.0), st.just(1.0), st.builds(lambda e: float(10.0 ** e), st.integers(-10, 4)))
+    return st.builds(lambda n, a, nm, L, x0, d, u: dict(n=n, a=a, num=nm, length=L * u, x0=x0 * u, data=d),
                      st.integers(2, nmax), gen.model_convection().map(lambda m: m["a"]), num, gen.logf(-2, 2), gen.f(-3, 3),
-                     st.lists(gen.sfloat(-3, 2), min_size=1, max_size=11))
+                     st.lists(gen.sfloat(-3, 2), min_size=1, max_size=11), unit)
 
 
 def check_stencil(case):
